@@ -347,6 +347,22 @@ class Run(object):
 
     def _make_fn(self, t):
         run = self
+        if t % 2 == 1:
+            # odd tasks are instance methods of an object that is falsy (empty container): binding must not
+            # depend on the truth value of the instance, whichever calling convention is used
+            class Holder(object):
+                def __len__(self):
+                    return 0
+
+                @asynq.asynq()
+                def body(self):
+                    assert isinstance(self, Holder)
+                    return (yield from run._interp(t))
+
+            Holder.body.__name__ = "task%d" % t
+            h = Holder()
+            self.keep.append(h)
+            return h.body
 
         @asynq.asynq()
         def body():
